@@ -96,7 +96,7 @@ func Load(opt Options) (*Prog, error) {
 	}
 	p.byName = map[string]*ssa.Function{}
 	for f := range p.All {
-		if p.InRepo(f) && len(f.Blocks) > 0 {
+		if p.InRepo(f) && len(f.Blocks) > 0 && !isWrapper(f) {
 			p.Fns = append(p.Fns, f)
 			p.byName[Short(f.String())] = f
 		}
